@@ -79,8 +79,9 @@ def run_nndvi(p, script, seed=0):
     # "halves": the detector receives every coordinate divided by two (neighbour relations and the NNPS distance are scale-invariant and
     # halves are exact); a batch on the even lattice is then all-whole and reaches the detector with an integer dtype from most containers,
     # the others carry fractions - what a batch IS must not depend on the dtype of the reference it is compared with
-    scale = 2 if p.get("halves") else 1
-    to_det = (lambda rows: [[v / 2 for v in r] for r in rows]) if scale == 2 else (lambda rows: rows)
+    # "tiny": the same points in units of 2**-40 (about 1e-12): distinct points stay distinct however close they are in absolute terms
+    scale = 2 if p.get("halves") else (2 ** 40 if p.get("tiny") else 1)
+    to_det = (lambda rows: [[v / scale for v in r] for r in rows]) if scale != 1 else (lambda rows: rows)
 
     def refrows():
         return [[int(round(scale * float(v))) for v in r] for r in np.asarray(det.reference_batch)]
@@ -120,12 +121,13 @@ def run_nndvi(p, script, seed=0):
                 if orig_dist is not None:
                     NNSpacePartitioner.compute_nnps_distance = orig_dist
             fit = "NA"
+            nre = len(dists) - 1 if len(dists) > 1 else -1        # re-assignment distances observed (-1: none could be observed)
             if len(dists) == p["sampling_times"] + 1:
                 mu, sd = float(np.mean(dists[1:])), float(np.std(dists[1:]))
                 fit = num(scipy.stats.norm.ppf(1 - p["alpha"], mu, sd))
             lo, hi = theta_bracket(part, p["k_nn"], p["sampling_times"], p["alpha"], seed + t)
             e = {"op": "update", "data": s[1], "part": part, "ref": refrows(),
-                 "th": {"theta": num(seen["theta"]) if "theta" in seen else "NA", "lo": num(lo), "hi": num(hi), "fit": fit}}
+                 "th": {"theta": num(seen["theta"]) if "theta" in seen else "NA", "lo": num(lo), "hi": num(hi), "fit": fit, "nre": nre, "st": p["sampling_times"]}}
         e.update(counters())
         ev.append(e)
     return {"cfg": {"k": p["k_nn"]}, "ev": ev, "params": p, "script": [list(s) for s in script], "seed": seed}
